@@ -63,8 +63,6 @@ def allowed_transition(old_sv, new_sv):
 
 def proc_exec(inline_after=False):
     ex = sqlvc.Exec(inline_after=inline_after)
-    if 'mark_job_group_complete' in ex.routines:
-        ex.stubs['mark_job_group_complete'] = sqlvc.havoc_stub(sqlvc.written_tables(ex.routines['mark_job_group_complete']))
     return ex
 
 
